@@ -57,6 +57,11 @@ def run_stream(stream, events):
                 fed += ev['k']
             elif ev['a'] == 'Eof':
                 face.reader.feed_eof()
+            elif ev['a'] == 'FeedEof':
+                # the rest of the stream and the end of stream arrive in the same loop iteration
+                face.reader.feed_data(stream[fed:])
+                fed = len(stream)
+                face.reader.feed_eof()
             s.loop.settle()
             out.append(dict(ev, pre=pre))
         out.append({'a': 'End', 'pre': proj()})
@@ -96,7 +101,7 @@ def framing(ctx):
         ctx.add_tlc('Framing exhaustive pkts<=%d bytes<=%d' % (mp, mb), r)
         if r.violated:
             ctx.violation('C06/spec/Framing/%s' % r.violated, 'TLC: %s violated in Framing' % r.violated, {'trace': r.errtrace})
-        for a in ('Feed', 'Eof', 'ReadT1', 'ReadTrest', 'ReadL1', 'ReadLrest', 'ReadV', 'Stop'):
+        for a in ('Feed', 'Eof', 'FeedEof', 'ReadT1', 'ReadTrest', 'ReadL1', 'ReadLrest', 'ReadV', 'Stop'):
             if r.coverage.get(a, (0, 0))[1] == 0:
                 raise tlc.MachineryError('vacuous: Framing action %s never taken' % a)
         wp = os.path.join(tlc.BUILD, 'Framing_w.cfg')
@@ -124,6 +129,8 @@ def framing(ctx):
                     evs.append({'a': 'Feed', 'k': args[0]})
                 elif act == 'Eof':
                     evs.append({'a': 'Eof'})
+                elif act == 'FeedEof':
+                    evs.append({'a': 'FeedEof'})
             key = (stream, tuple((e['a'], e.get('k')) for e in evs))
             if key in seen:
                 continue
@@ -155,6 +162,8 @@ def framing(ctx):
                     if n:
                         ks.append(run)
                     evs = [{'a': 'Feed', 'k': k} for k in ks] + [{'a': 'Eof'}]
+                    if n and (mask + cut) % 2:
+                        evs = [{'a': 'Feed', 'k': k} for k in ks[:-1]] + [{'a': 'FeedEof'}]
                     rec, bad = run_stream(stream, evs)
                     recs.append(rec)
                     if bad:
@@ -176,7 +185,10 @@ def framing(ctx):
             while left > 0:
                 k = min(left, rng.choice([1, 1, 2, 3, 5, 8, 50, 252, 253, 300]))
                 evs.append({'a': 'Feed', 'k': k}); left -= k
-            evs.append({'a': 'Eof'})
+            if evs and rng.random() < 0.5:
+                evs[-1] = {'a': 'FeedEof'}
+            else:
+                evs.append({'a': 'Eof'})
             rec, bad = run_stream(stream, evs)
             recs.append(rec)
             if bad:
@@ -228,7 +240,7 @@ def build_corpus(rng, n_random):
         def update(self, bs):
             for b in bs:
                 self.add(b)
-    sub, trunc, refr, odd, fragc, addr, rnd, lpo = (_Add(c) for c in ('mut-sub', 'mut-trunc', 'mut-reframed', 'odd', 'frag', 'addr-malformed', 'random', 'lp-overrun'))
+    sub, trunc, refr, odd, fragc, addr, rnd, lpo, nackd = (_Add(c) for c in ('mut-sub', 'mut-trunc', 'mut-reframed', 'odd', 'frag', 'addr-malformed', 'random', 'lp-overrun', 'nack-around-data'))
     for s in seeds:
         for i in range(len(s)):
             for x in (0x01, 0x80, 0xFF):
@@ -256,6 +268,8 @@ def build_corpus(rng, n_random):
         fragc.add(pitkit.lp_wrap(w, frag=(0, 1)))
         fragc.add(pitkit.lp_wrap(w, frag=(1, 2), extra=True))
         fragc.add(pitkit.lp_wrap(w, frag=(0, 2), odd=True))         # with a Sequence field in front, NDNLPv2 order
+        nackd.add(pitkit.lp_wrap(w, nack_reason=150))                # a Nack header around a *Data* packet somebody waits for
+        nackd.add(pitkit.lp_wrap(w, nack_reason=0, extra=True))
         # LpPacket whose Fragment announces more bytes than the packet holds (structurally malformed envelope)
         lpo.add(bytes([0x64]) + st.write_var(len(w) + 2) + bytes([0x50]) + st.write_var(len(w) + 7) + w)
         for i in range(1, len(w)):
